@@ -37,12 +37,67 @@ def last_return(fn: ast.FunctionDef) -> ast.expr:
     return rets[-1].value
 
 
+def returned_bool(fn: ast.FunctionDef) -> ast.expr:
+    """The boolean a comparison method returns for two `Proposal`s, whatever mix of guard clauses / if-else / single
+    expression it is written in: the paths are folded into one expression (`if c: return a` + `return b` is
+    `c and a or not c and b`, simplified for literal True / False).  `isinstance(<other>, Proposal)` holds."""
+    def truth_const(e):
+        if isinstance(e, ast.Constant) and isinstance(e.value, bool):
+            return e.value
+        return None
+
+    def test_of(e: ast.expr):
+        if isinstance(e, ast.Call) and ast.unparse(e.func) == "isinstance" and len(e.args) == 2 \
+                and ast.unparse(e.args[1]) == "Proposal":
+            return ast.Constant(value=True)
+        if isinstance(e, ast.UnaryOp) and isinstance(e.op, ast.Not):
+            inner = test_of(e.operand)
+            c = truth_const(inner)
+            return ast.Constant(value=not c) if c is not None else ast.UnaryOp(op=ast.Not(), operand=inner)
+        return e
+
+    def neg(e):
+        return ast.UnaryOp(op=ast.Not(), operand=e)
+
+    def both(a, b, op):
+        vals = []
+        for x in (a, b):
+            vals += x.values if isinstance(x, ast.BoolOp) and isinstance(x.op, type(op)) else [x]
+        return ast.BoolOp(op=op, values=vals)
+
+    def fold(stmts: list) -> ast.expr:
+        stmts = [st for st in stmts if not (isinstance(st, ast.Expr) and isinstance(st.value, ast.Constant))]
+        if not stmts:
+            raise py2lean.Unsupported(f"{fn.name}: a path without return")
+        st, rest = stmts[0], stmts[1:]
+        if isinstance(st, ast.Return) and st.value is not None:
+            return st.value
+        if isinstance(st, ast.If):
+            t = test_of(st.test)
+            c = truth_const(t)
+            if c is not None:
+                return fold((st.body if c else st.orelse) + rest)
+            a, b = fold(st.body + rest), fold(st.orelse + rest)
+            ca, cb = truth_const(a), truth_const(b)
+            if ca is True:
+                return both(t, b, ast.Or())
+            if ca is False:
+                return both(neg(t), b, ast.And())
+            if cb is True:
+                return both(neg(t), a, ast.Or())
+            if cb is False:
+                return both(t, a, ast.And())
+            return ast.BoolOp(op=ast.Or(), values=[both(t, a, ast.And()), both(neg(t), b, ast.And())])
+        raise py2lean.Unsupported(f"{fn.name}: statement {ast.unparse(st)[:50]}")
+    return fold(fn.body)
+
+
 def generate(repo: pathlib.Path) -> str:
     tr = py2lean.Translator({})
     env = py2lean.Env()
     base = ast.parse((repo / SOURCES[0]).read_text())
-    lt = Flatten().visit(last_return(find_method(base, "Proposal", "__lt__")))
-    eq = Flatten().visit(last_return(find_method(base, "Proposal", "__eq__")))
+    lt = Flatten().visit(returned_bool(find_method(base, "Proposal", "__lt__")))
+    eq = Flatten().visit(returned_bool(find_method(base, "Proposal", "__eq__")))
     # a conjunction of plain field comparisons cannot raise and has no effects: canonical (textual) order of the conjuncts
     if isinstance(eq, ast.BoolOp) and isinstance(eq.op, ast.And) and all(
             isinstance(v, ast.Compare) and all(isinstance(x, ast.Name) for x in [v.left] + v.comparators) for v in eq.values):
@@ -79,7 +134,21 @@ def generate(repo: pathlib.Path) -> str:
                 return ast.copy_location(ast.Name(id="loop_time", ctx=ast.Load()), node)
             return node
     import copy
-    test = Flatten().visit(Roles().visit(copy.deepcopy(tests[0])))
+    # locals that merely name an attribute / another name (assigned exactly once) are read through
+    alias: dict = {}
+    counts: dict = {}
+    for n in ast.walk(drop):
+        if isinstance(n, ast.Assign) and len(n.targets) == 1 and isinstance(n.targets[0], ast.Name):
+            counts[n.targets[0].id] = counts.get(n.targets[0].id, 0) + 1
+            if isinstance(n.value, (ast.Attribute, ast.Name)):
+                alias[n.targets[0].id] = n.value
+
+    class Unalias(ast.NodeTransformer):
+        def visit_Name(self, node: ast.Name):
+            if isinstance(node.ctx, ast.Load) and node.id in alias and counts.get(node.id) == 1:
+                return self.visit(copy.deepcopy(alias[node.id]))
+            return node
+    test = Flatten().visit(Roles().visit(Unalias().visit(copy.deepcopy(tests[0]))))
     out += ["/-- the `if` of `drop_old_proposals`: this proposal is dropped. -/\n"
             "def expired (loop_time : Rat) (proposal_creation_time : Rat) (self__max_proposal_age_sec : Rat) : Prop :=\n"
             f"  {tr.prop(test, env)}\n",
